@@ -48,6 +48,7 @@ type Unit struct {
 	heapSorts map[string]Sort
 	heapOrder []string
 	unsupported []string
+	autoInlined map[string]bool
 	npaths    int
 	props     []string
 	assumed   map[string]bool // assumption notes for the evidence
